@@ -302,7 +302,8 @@ def _pch_text(b, in_set=False):
     if c in RX_SPECIAL:
         return "\\" + c
     if c == " ":
-        return "\\ "
+        # `\\ ` directly followed by one of wWdDsSntr is lexed by nmfu as that class (whitespace is skipped): keep it unambiguous
+        return "[\\ ]"
     if c == "\n":
         return "\\n"
     if c == "\t":
@@ -334,12 +335,16 @@ def pr(n, binary=False):
     if t == "ch":
         return ("%02x" % n[1]) if binary else _pch_text(n[1])
     if t == "cls":
-        return "\\" + n[1]
+        return "[\\ ]" if n[1] == " " else "\\" + n[1]
     if t == "any":
         return "."
     if t == "set":
         out = "[^" if n[2] else "["
-        for it in n[1]:
+        items = list(n[1])
+        if not binary:
+            items = [it for it in items if not (it[0] == "ch" and it[1] == 32) and not (it[0] == "cls" and it[1] == " ")] + \
+                    [it for it in items if (it[0] == "ch" and it[1] == 32) or (it[0] == "cls" and it[1] == " ")][:1]
+        for it in items:
             if it[0] == "ch":
                 out += ("%02x" % it[1]) if binary else _set_item(it[1])
             elif it[0] == "range":
@@ -448,6 +453,20 @@ def gen(rng, alphabet, depth=3, binary=False, classes=True, size=None):
         return xs[0] if len(xs) == 1 else ("alt", xs)
 
     return alt_(depth)
+
+
+def has_empty_set(n):
+    """does the syntax tree contain a character set that matches nothing (e.g. [^\\w\\W])?"""
+    t = n[0]
+    if t == "set":
+        return to_sem(n) == EMPTY
+    if t == "grp":
+        return has_empty_set(n[1])
+    if t in ("alt", "seq"):
+        return any(has_empty_set(x) for x in n[1])
+    if t in ("op", "rep"):
+        return has_empty_set(n[1])
+    return False
 
 
 def text_range_ok(b):
